@@ -276,11 +276,12 @@ C["C09"]["harnesses"] += [
 # Thorough-only harnesses that were written but whose thorough bounds were never run to completion on the
 # unchanged tree within the time available are not registered (a check is registered only with bounds that ran
 # clean): they stay in the harness files and can be run with bin/gosym directly.
+PROBING = {"ZZAddrListSeq5", "ZZWriterQueueCap6", "ZZMetadataAdopt5"}
 NOT_RUN_CLEAN = {"ZZAdversary3", "ZZSectionRW3", "ZZPathsConfined2", "ZZReaderFirst", "ZZMessageTwo", "ZZPickerSeq4",
                  "ZZPickerSequential4", "ZZPickerRich2", "ZZHonestPiece", "ZZMetadataAdopt5", "ZZWriterQueueCap6",
                  "ZZStreeExact3", "ZZAddrListSeq5", "ZZPickerWebseed4", "ZZRamBalance2"}
 for pid, spec in C.items():
-    spec["harnesses"] = [h for h in spec["harnesses"] if h["fn"] not in NOT_RUN_CLEAN]
+    spec["harnesses"] = [h for h in spec["harnesses"] if h["fn"] not in NOT_RUN_CLEAN or (os.environ.get("GEN_PROBING") and h["fn"] in PROBING)]
     seen = set()
     uniq = []
     for h in spec["harnesses"]:
